@@ -251,7 +251,7 @@ class Model:
         if t.kind == 'int':
             w = t.bits
             mx, mn = self.tmax(t), self.tmin(t)
-            cand = [0, 1, 2, -1, mx, mn, mx - 1, mn + 1, int('55' * (w // 8), 16), w - 1, w, 1 << (w // 2)]
+            cand = [0, 1, 2, -1, mx, mn, mx - 1, mn + 1, ((1 << w) - 1) // 3, w - 1, w, 1 << (w // 2)]
             if extra:
                 cand += [-2, 3, (1 << 62) + (1 << 38) + 1, (1 << 63) + (1 << 39) + 1, (1 << 31), (1 << 24) + 1, -(1 << 31) - 1, 255, 128, -128]
         else:
@@ -411,3 +411,544 @@ def s1_case(m, spec, nv, extra):
     key = 'S1/%s/%sx%s' % (OPNAME[op], tclass(m, t1), tclass(m, t2))
     return Case('S1', key, fn.replace('@', ''), decl, drive, ['a=%s b=%s' % (show(t1, a), show(t2, b)) for a, b in good],
                 filtered=filt, charty=CHAR in (t1, t2))
+
+
+# ---------------------------------------------------------------------------
+# S2: unary, ++/--, conversions, assignment, compound assignment, conditional, pointers
+
+UNOPS = ('+', '-', '~', '!')
+UNNAME = {'+': 'plus', '-': 'neg', '~': 'not', '!': 'lnot'}
+INCDEC = ('preinc', 'postinc', 'predec', 'postdec')
+INCDEC_X = {'preinc': '++%s', 'postinc': '%s++', 'predec': '--%s', 'postdec': '%s--'}
+CONVKINDS = ('cast', 'assign', 'init', 'arg', 'ret')
+CASOPS = ('+', '-', '*', '/', '%', '<<', '>>', '&', '|', '^')
+ELEMS = {1: 'char', 2: 'short', 3: 'struct { char c[3]; }', 4: 'int', 8: 'long', 12: 'struct { int c[3]; }', 24: 'struct { long c[3]; }'}
+PFORMS = ('p+i', 'i+p', 'p-i', '&p[i]', '&i[p]', 'p+=i', 'p-=i', 'p[i]')
+PNULLFORMS = ('p == 0', '0 == p', 'p != 0', '!p', '!!p', 'p && q', 'p || q', 'p ? 1 : 2', '(_Bool)p', 'p == q', 'p != q', '(p ? p : q) == q')
+PCMP = ('<', '>', '<=', '>=', '==', '!=')
+VMFORMS = ('vla2d-index', 'vla2d-rowaddr', 'ptr-to-vla-add', 'ptr-to-vla-inc', 'ptr-to-vla-index', 'ptr-to-vla-diff', 'vla-param-index',
+           'sizeof-vla-row', 'vla1d-index', 'ptr-to-vla-deref')
+
+
+def s2_specs(only_char=False):
+    C = CHAR.ab
+    for op in UNOPS:
+        for t in T14:
+            if not only_char or t is CHAR:
+                yield ('S2', 'un', op, t.ab)
+    for f in INCDEC:
+        for t in T14:
+            if not only_char or t is CHAR:
+                yield ('S2', 'incdec', f, t.ab)
+        if not only_char:
+            for sz in (1, 3, 8, 24):
+                yield ('S2', 'pincdec', f, sz)
+    for k in CONVKINDS:
+        for t1 in T14:
+            for t2 in T14:
+                if not only_char or C in (t1.ab, t2.ab):
+                    yield ('S2', 'conv', k, t1.ab, t2.ab)
+    for op in CASOPS:
+        for t1 in T14:
+            for t2 in T14:
+                if not only_char or C in (t1.ab, t2.ab):
+                    yield ('S2', 'cas', op, t1.ab, t2.ab)
+    for t1 in T14:
+        for t2 in T14:
+            if not only_char or C in (t1.ab, t2.ab):
+                yield ('S2', 'cond', t1.ab, t2.ab)
+    for sz in ELEMS:
+        for t in INTS:
+            if not only_char or t is CHAR:
+                for f in PFORMS:
+                    yield ('S2', 'parith', f, sz, t.ab)
+    if only_char:
+        return
+    for op in PCMP:
+        yield ('S2', 'pcmp', op)
+    for f in PNULLFORMS:
+        yield ('S2', 'pnull', f)
+    for sz in ELEMS:
+        yield ('S2', 'pdiff', sz)
+    for f in VMFORMS:
+        yield ('S2', 'vm', f)
+
+
+def s2_case(m, spec, nv, extra):
+    kind = spec[1]
+    return globals()['_s2_' + kind](m, spec, nv, extra)
+
+
+def _s2_un(m, spec, nv, extra):
+    _, _, op, ab = spec
+    t = BYAB[ab]
+    good, filt, r = [], 0, None
+    for a in m.values(t, nv, extra):
+        try:
+            r, _ = m.unop(op, t, a)
+            good.append(a)
+        except UB:
+            filt += 1
+        except Invalid:
+            return None
+    if not good:
+        return Case('S2', None, None, '', '', [], filtered=filt)
+    fn = '__typeof__(%s(%s)1) f@(%s a) { return %sa; }\n' % (op, t.name, t.name, op)
+    decl = fn + tab(m, t, 'A@', good)
+    drive = 'for (int i = 0; i < %d; i++) %s(f@(%s));' % (len(good), outfn(r), arg(t, 'A@[i]'))
+    return Case('S2', 'S2/unary-%s/%s' % (UNNAME[op], tclass(m, t)), fn.replace('@', ''), decl, drive,
+                ['a=%s' % show(t, a) for a in good], filtered=filt, charty=t is CHAR)
+
+
+def _s2_incdec(m, spec, nv, extra):
+    _, _, form, ab = spec
+    t = BYAB[ab]
+    op = '+' if 'inc' in form else '-'
+    good, filt = [], 0
+    for a in m.values(t, nv, extra):
+        try:
+            m.compound(op, t, a, INT, 1)
+            good.append(a)
+        except UB:
+            filt += 1
+    fn = '%s f@(%s a, %s *q) { %s r = %s; *q = a; return r; }\n' % (t.name, t.name, t.name, t.name, INCDEC_X[form] % 'a')
+    decl = fn + tab(m, t, 'A@', good)
+    o = outfn(t)
+    drive = 'for (int i = 0; i < %d; i++) { %s q; %s(f@(%s, &q)); %s(q); }' % (len(good), t.name, o, arg(t, 'A@[i]'), o)
+    return Case('S2', 'S2/incdec/%s' % tclass(m, t), fn.replace('@', ''), decl, drive, ['a=%s' % show(t, a) for a in good],
+                lines_per=2, filtered=filt, charty=t is CHAR)
+
+
+def _s2_pincdec(m, spec, nv, extra):
+    _, _, form, sz = spec
+    fn = 'typedef %s E@;\nE@ *f@(E@ *p, E@ **q) { E@ *r = %s; *q = p; return r; }\n' % (ELEMS[sz], INCDEC_X[form] % 'p')
+    decl = fn + 'static E@ arr@[5];\n'
+    drive = ('for (int i = 1; i < 4; i++) { E@ *q; out((unsigned long)f@(&arr@[i], &q) - (unsigned long)arr@); '
+             'out((unsigned long)q - (unsigned long)arr@); }')
+    return Case('S2', 'S2/incdec/pointer-to-size-%d' % sz, fn.replace('@', ''), decl, drive, ['p=&arr[%d]' % i for i in (1, 2, 3)], lines_per=2)
+
+
+def _s2_conv(m, spec, nv, extra):
+    _, _, k, a1, a2 = spec
+    t1, t2 = BYAB[a1], BYAB[a2]
+    good, filt = [], 0
+    for a in m.values(t1, nv, extra):
+        try:
+            m.conv(a, t2)
+            good.append(a)
+        except UB:
+            filt += 1
+    if not good:
+        return Case('S2', None, None, '', '', [], filtered=filt)
+    n1, n2 = t1.name, t2.name
+    fn = {
+        'cast': '%s f@(%s a) { return (%s)a; }\n' % (n2, n1, n2),
+        'assign': '%s f@(%s a) { %s x; x = a; return x; }\n' % (n2, n1, n2),
+        'init': '%s f@(%s a) { %s x = a; return x; }\n' % (n2, n1, n2),
+        'arg': 'static %s id@(%s x) { return x; }\n%s f@(%s a) { return id@(a); }\n' % (n2, n2, n2, n1),
+        'ret': '%s f@(%s a) { return a; }\n' % (n2, n1),
+    }[k]
+    decl = fn + tab(m, t1, 'A@', good)
+    drive = 'for (int i = 0; i < %d; i++) %s(f@(%s));' % (len(good), outfn(t2), arg(t1, 'A@[i]'))
+    return Case('S2', 'S2/conv-%s/%s->%s' % (k, tclass(m, t1), tclass(m, t2)), fn.replace('@', ''), decl, drive,
+                ['a=%s' % show(t1, a) for a in good], filtered=filt, charty=CHAR in (t1, t2))
+
+
+def _s2_cas(m, spec, nv, extra):
+    _, _, op, a1, a2 = spec
+    t1, t2 = BYAB[a1], BYAB[a2]
+    try:
+        m.restype(op, t1, t2)
+    except Invalid:
+        return None
+    good, filt = [], 0
+    for a, b in pairs(m, t1, t2, nv, extra):
+        try:
+            m.compound(op, t1, a, t2, b)
+            good.append((a, b))
+        except UB:
+            filt += 1
+    if not good:
+        return Case('S2', None, None, '', '', [], filtered=filt)
+    fn = '%s f@(%s a, %s b, %s *q) { %s r = (a %s= b); *q = a; return r; }\n' % (t1.name, t1.name, t2.name, t1.name, t1.name, op)
+    decl = fn + tab(m, t1, 'A@', [a for a, _ in good]) + tab(m, t2, 'B@', [b for _, b in good])
+    o = outfn(t1)
+    drive = 'for (int i = 0; i < %d; i++) { %s q; %s(f@(%s, %s, &q)); %s(q); }' % (len(good), t1.name, o, arg(t1, 'A@[i]'), arg(t2, 'B@[i]'), o)
+    return Case('S2', 'S2/compound-%s/%s,%s' % (OPNAME[op], tclass(m, t1), tclass(m, t2)), fn.replace('@', ''), decl, drive,
+                ['a=%s b=%s' % (show(t1, a), show(t2, b)) for a, b in good], lines_per=2, filtered=filt, charty=CHAR in (t1, t2))
+
+
+def _s2_cond(m, spec, nv, extra):
+    _, _, a1, a2 = spec
+    t1, t2 = BYAB[a1], BYAB[a2]
+    r = m.uac(t1, t2)
+    good = [(c, a, b) for a, b in pairs(m, t1, t2, nv, extra) for c in (0, 1)]
+    R = '__typeof__(1 ? (%s)1 : (%s)1)' % (t1.name, t2.name)
+    fn = '%s f@(int c, %s a, %s b, %s *q1, %s *q0) { *q1 = 1 ? a : b; *q0 = 0 ? a : b; return c ? a : b; }\n' % (R, t1.name, t2.name, R, R)
+    decl = fn + tab(m, t1, 'A@', [a for _, a, _ in good]) + tab(m, t2, 'B@', [b for _, _, b in good])
+    o = outfn(r)
+    drive = 'for (int i = 0; i < %d; i++) { %s q1, q0; %s(f@(i & 1, %s, %s, &q1, &q0)); %s(q1); %s(q0); }' % (
+        len(good), R, o, arg(t1, 'A@[i]'), arg(t2, 'B@[i]'), o, o)
+    good = [(i & 1, a, b) for i, (c, a, b) in enumerate(good)]
+    return Case('S2', 'S2/conditional/%s:%s' % (tclass(m, t1), tclass(m, t2)), fn.replace('@', ''), decl, drive,
+                ['c=%d a=%s b=%s' % (c, show(t1, a), show(t2, b)) for c, a, b in good], lines_per=3, charty=CHAR in (t1, t2))
+
+
+def _s2_parith(m, spec, nv, extra):
+    _, _, form, sz, ab = spec
+    t = BYAB[ab]
+    if form == 'p[i]' and sz not in (1, 2, 4, 8):
+        return None
+    idx = [i for i in (0, 1, 2, -1, 4, -4, 3, -2) if m.inrange(t, i)]
+    body = {'p+i': 'return p + i;', 'i+p': 'return i + p;', 'p-i': 'return p - i;', '&p[i]': 'return &p[i];', '&i[p]': 'return &i[p];',
+            'p+=i': 'p += i; return p;', 'p-=i': 'p -= i; return p;', 'p[i]': 'return p[i];'}[form]
+    if form == 'p[i]':
+        fn = 'typedef %s E@;\nE@ f@(E@ *p, %s i) { %s }\n' % (ELEMS[sz], t.name, body)
+        decl = fn + 'static E@ arr@[9] = {10, 11, 12, 13, 14, 15, 16, 17, 18};\n' + tab(m, t, 'I@', idx)
+        drive = 'for (int i = 0; i < %d; i++) out(f@(&arr@[4], I@[i]));' % len(idx)
+    else:
+        fn = 'typedef %s E@;\nE@ *f@(E@ *p, %s i) { %s }\n' % (ELEMS[sz], t.name, body)
+        decl = fn + 'static E@ arr@[9];\n' + tab(m, t, 'I@', idx)
+        drive = 'for (int i = 0; i < %d; i++) out((unsigned long)f@(&arr@[4], I@[i]) - (unsigned long)arr@);' % len(idx)
+    return Case('S2', 'S2/ptr-arith/%s/elem%d/%s' % (form, sz, tclass(m, t)), fn.replace('@', ''), decl, drive,
+                ['p=&arr[4] i=%d' % i for i in idx], charty=t is CHAR)
+
+
+def _s2_pcmp(m, spec, nv, extra):
+    _, _, op = spec
+    fn = 'int f@(int *p, int *q) { return p %s q; }\n' % op
+    decl = fn + 'static int arr@[4];\n'
+    drive = 'for (int i = 0; i < 4; i++) for (int j = 0; j < 4; j++) out(f@(&arr@[i], &arr@[j]));'
+    return Case('S2', 'S2/ptr-compare/' + OPNAME[op], fn.replace('@', ''), decl, drive, ['p=&arr[%d] q=&arr[%d]' % (i, j) for i in range(4) for j in range(4)])
+
+
+def _s2_pnull(m, spec, nv, extra):
+    _, _, form = spec
+    fn = 'int f@(int *p, int *q) { return %s; }\n' % form
+    decl = fn + 'static int x@, y@;\nstatic int *P@[3] = {0, &x@, &y@};\n'
+    drive = 'for (int i = 0; i < 3; i++) for (int j = 0; j < 3; j++) out(f@(P@[i], P@[j]));'
+    names = ('null', '&x', '&y')
+    return Case('S2', 'S2/ptr-null/' + form.replace(' ', ''), fn.replace('@', ''), decl, drive, ['p=%s q=%s' % (a, b) for a in names for b in names])
+
+
+def _s2_pdiff(m, spec, nv, extra):
+    _, _, sz = spec
+    fn = 'typedef %s E@;\nlong f@(E@ *p, E@ *q) { return p - q; }\n' % ELEMS[sz]
+    decl = fn + 'static E@ arr@[5];\n'
+    drive = 'for (int i = 0; i < 5; i++) for (int j = 0; j < 5; j++) out(f@(&arr@[i], &arr@[j]));'
+    return Case('S2', 'S2/ptr-diff/elem%d' % sz, fn.replace('@', ''), decl, drive, ['p=&arr[%d] q=&arr[%d]' % (i, j) for i in range(5) for j in range(5)])
+
+
+def _s2_vm(m, spec, nv, extra):
+    """pointer arithmetic whose element type is variably modified; n = 1..3, indices inside the object"""
+    _, _, form = spec
+    UL = '(unsigned long)'
+    F = {
+        'vla2d-index': ('unsigned long f@(int n, int i, int j) { long v[n][n + 1]; return %s&v[i][j] - %sv; }' % (UL, UL), 3),
+        'vla2d-rowaddr': ('unsigned long f@(int n, int i, int j) { int v[n + j][n]; return %s&v[i] - %sv; }' % (UL, UL), 3),
+        'ptr-to-vla-add': ('unsigned long f@(int n, int i, int j) { int a[4][n]; int (*p)[n] = a; return %s(p + i) - %sa + j; }' % (UL, UL), 3),
+        'ptr-to-vla-inc': ('unsigned long f@(int n, int i, int j) { int a[4][n]; int (*p)[n] = a; if (i) p++; if (j) ++p; return %sp - %sa; }' % (UL, UL), 3),
+        'ptr-to-vla-index': ('unsigned long f@(int n, int i, int j) { int a[4][n]; int (*p)[n] = a; return %s&p[i][j %% n] - %sa; }' % (UL, UL), 3),
+        'ptr-to-vla-diff': ('long f@(int n, int i, int j) { int a[4][n]; int (*p)[n] = a; return (p + i) - (p + j); }', 3),
+        'vla-param-index': ('static long g@(int n, int k, long v[n][k], int i, int j) { return v[i][j]; }\n'
+                            'long f@(int n, int i, int j) { long v[3][n + 1]; for (int x = 0; x < 3; x++) for (int y = 0; y <= n; y++) v[x][y] = 100 * x + y; '
+                            'return g@(3, n + 1, v, i, j % (n + 1)); }', 3),
+        'sizeof-vla-row': ('unsigned long f@(int n, int i, int j) { long v[n + i][n + j]; long (*p)[n + j] = v; '
+                           'return sizeof v[0] * 10000 + sizeof *p * 100 + sizeof v / sizeof v[0]; }', 3),
+        'vla1d-index': ('unsigned long f@(int n, int i, int j) { long v[n + 3]; return %s&v[i] - %sv + j; }' % (UL, UL), 3),
+        'ptr-to-vla-deref': ('long f@(int n, int i, int j) { long a[3][n]; long (*p)[n] = a; for (int x = 0; x < 3; x++) for (int y = 0; y < n; y++) a[x][y] = 100 * x + y; '
+                             'return (*(p + i))[j % n] + (*p)[0]; }', 3),
+    }
+    fn, imax = F[form]
+    fn += '\n'
+    tup = [(n, i, j) for n in (1, 2, 3) for i in range(imax) for j in range(imax) if not (form.startswith('vla2d-index') and (i >= n or j > n))
+           and not (form == 'vla2d-rowaddr' and i >= n + j)]
+    decl = fn + 'static int N@[] = {%s};\nstatic int I@[] = {%s};\nstatic int J@[] = {%s};\n' % (
+        ','.join(str(t[0]) for t in tup), ','.join(str(t[1]) for t in tup), ','.join(str(t[2]) for t in tup))
+    drive = 'for (int i = 0; i < %d; i++) out(f@(N@[i], I@[i], J@[i]));' % len(tup)
+    key = 'S2/variably-modified/' + form if form in ('sizeof-vla-row', 'vla1d-index') else 'S2/ptr-arith/variably-modified-element-type'
+    return Case('S2', key, fn.replace('@', ''), decl, drive, ['n=%d i=%d j=%d' % t for t in tup])
+
+
+# ---------------------------------------------------------------------------
+# S3: bit-fields
+
+BFBASES = (SCHAR, UCHAR, CHAR, SHORT, USHORT, INT, UINT, LONG, ULONG)
+BFWIDTHS = (1, 7, 8, 15, 16, 31, 32, 33, 63, 64)
+BFFILL = (0, 3, 5, 13)
+BFOPS = ('write', 'read', 'arith', 'preinc', 'postinc', 'predec', 'postdec') + tuple('cas' + o for o in CASOPS)
+
+
+def s3_specs(only_char=False):
+    for t in BFBASES + (BOOL,):
+        if only_char and t is not CHAR:
+            continue
+        for w in BFWIDTHS:
+            if w > (1 if t is BOOL else t.bits):
+                continue
+            for fill in BFFILL:
+                if fill >= (8 if t is BOOL else t.bits):
+                    continue
+                for op in BFOPS:
+                    if t is BOOL and op not in ('write', 'read', 'arith', 'cas|', 'cas&', 'cas^', 'cas+'):
+                        continue
+                    yield ('S3', t.ab, w, fill, op)
+
+
+def _bf_vals(m, t, w, n, extra):
+    """values of a w-bit field with the signedness of t: a small integer type of its own"""
+    sg = m.signed(t) and t is not BOOL
+    ft = CT('bf', 'bf', 'int', w, sg, 0)
+    if w == 1:
+        return [0, -1] if sg else [0, 1]
+    return m.values(ft, n, extra)
+
+
+def s3_case(m, spec, nv, extra):
+    _, ab, w, fill, op = spec
+    t = BYAB[ab]
+    sg = m.signed(t) and t is not BOOL
+    ft = CT('bf', 'bf', 'int', w, sg, 0)          # the field as an integer type
+    if t.rank > INT.rank:
+        pt = t        # long-based fields: gcc computes in a type of the field's width, clang in long; see fits_gcc
+    else:
+        pt = INT if (w < 32 or sg) else UINT
+    fvals = _bf_vals(m, t, w, nv, extra)
+    bvals = m.values(t, nv, extra)
+    tup, filt = [], 0        # (background, initial field value, operand)
+
+    def fits_gcc(v):
+        # gcc computes long-based fields wider than int in a type of the field's width: keep intermediate results inside it
+        return t.rank <= INT.rank or w <= 32 or (m.tmin(ft) <= v <= m.tmax(ft))
+
+    if op == 'write':
+        ex = 'p->f = v'
+        for bg in (0, -1):
+            for v in dict.fromkeys(bvals + fvals):
+                tup.append((bg, 0 if bg else (-1 if sg else m.tmax(ft)), v))
+    elif op == 'read':
+        ex = 'p->f'
+        for bg in (0, -1):
+            for i in fvals:
+                tup.append((bg, i, 0))
+    elif op == 'arith':
+        if t.rank > INT.rank:
+            return None          # promoted type of a long bit-field is implementation-defined (gcc: the field width, clang: long)
+        ex = '(p->f - 1) / 2 + (p->f < v)'
+        for i in fvals:
+            for v in bvals[:3]:
+                try:
+                    _, x = m.binop('-', pt, i, INT, 1)
+                    m.binop('/', pt, x, INT, 2)
+                    tup.append((0, i, v))
+                except UB:
+                    filt += 1
+    elif op in INCDEC:
+        ex = INCDEC_X[op] % 'p->f'
+        for bg in (0, -1):
+            for i in fvals:
+                try:
+                    _, x = m.binop('+' if 'inc' in op else '-', pt, i, INT, 1)
+                    if not fits_gcc(x) and sg:
+                        raise UB('gcc field-width type')
+                    tup.append((bg, i, 0))
+                except UB:
+                    filt += 1
+    else:
+        o = op[3:]
+        ex = 'p->f %s= v' % o
+        rv = [v for v in dict.fromkeys(bvals[:4] + [3, w - 1, w]) if m.inrange(t, v)]
+        for bg in (0, -1):
+            for i in fvals:
+                for v in rv:
+                    try:
+                        _, x = m.binop(o, pt, i, t, v)
+                        if o in ('<<', '>>') and t.rank > INT.rank and w > 32 and v >= w:
+                            raise UB('gcc field-width type shift')
+                        if sg and o in ('<<', '+', '-', '*') and not fits_gcc(x):
+                            raise UB('gcc field-width type')
+                        tup.append((bg, i, v))
+                    except UB:
+                        filt += 1
+    if not tup:
+        return Case('S3', None, None, '', '', [], filtered=filt)
+    mem = ('%s pad : %d; ' % (t.name, fill) if fill else '') + '%s f : %d; %s g : %d;' % (t.name, w, t.name, 1 if t is BOOL else 3)
+    fn = 'struct s@ { %s };\nlong long f@(struct s@ *p, %s v) { return %s; }\n' % (mem, t.name, ex)
+    decl = fn + 'static int G@[] = {%s};\n' % ','.join(str(b) for b, _, _ in tup) + tab(m, t, 'I@', [m.conv(i, t) for _, i, _ in tup]) + tab(m, t, 'V@', [v for _, _, v in tup])
+    pad = 's.pad = G@[i]; ' if fill else ''
+    padout = 'out(s.pad); ' if fill else ''
+    drive = ('for (int i = 0; i < %d; i++) { struct s@ s; %ss.g = G@[i]; s.f = I@[i]; out(f@(&s, V@[i])); %sout(s.f); out(s.g); }' % (len(tup), pad, padout))
+    kop = op if not op.startswith('cas') else 'compound-' + OPNAME[op[3:]]
+    key = 'S3/%s/%s:%d' % (kop, tclass(m, t), w)
+    return Case('S3', key, fn.replace('@', ''), decl, drive, ['fill=%d background=%d f=%s v=%s' % (fill, b, i, v) for b, i, v in tup],
+                lines_per=4 if fill else 3, filtered=filt, charty=t is CHAR)
+
+
+# ---------------------------------------------------------------------------
+# S4: control-flow statement trees
+#
+# S ::= out(k) | break | continue | return | goto end
+#     | if(c) S | while(n--) S | do S while(--n) | for(i<2) S | {int t=k; S out(t);} | switch(v){case 1: S} | switch(v){default: S}
+#     | if(c) S else S | {S S} | switch(v){case 1: S case 2: S} | switch(v){case 1: S default: S} | switch(v){default: S case 1: S}
+# c in {0, 1, a};  a in {0,1} and v in {0,1,2,3} are the function's parameters.  break needs an enclosing loop or switch,
+# continue an enclosing loop.  Every loop has its own counter, so every program terminates.
+
+LEAVES = ('o', 'b', 'c', 'r', 'g')
+UNARY = ('if0', 'if1', 'ifa', 'wh', 'do', 'for', 'blk', 'sw1', 'swd')
+BINARY = ('ife0', 'ife1', 'ifea', 'seq', 'sw12', 'sw1d', 'swd1')
+
+
+def trees(n, inloop=False, insw=False):
+    """all statement trees with exactly n nodes, as nested tuples"""
+    if n == 1:
+        yield ('o',)
+        if inloop or insw:
+            yield ('b',)
+        if inloop:
+            yield ('c',)
+        yield ('r',)
+        yield ('g',)
+        return
+    for k in UNARY:
+        loop = k in ('wh', 'do', 'for')
+        for s in trees(n - 1, inloop or loop, insw or k in ('sw1', 'swd')):
+            yield (k, s)
+    for k in BINARY:
+        sw = insw or k.startswith('sw')
+        for i in range(1, n - 1):
+            for s1 in trees(i, inloop, sw):
+                for s2 in trees(n - 1 - i, inloop, sw):
+                    yield (k, s1, s2)
+
+
+class _Render:
+    def __init__(self):
+        self.k = 0
+        self.uses_a = self.uses_v = False
+
+    def nxt(self):
+        self.k += 1
+        return self.k
+
+    def r(self, t):
+        k = t[0]
+        if k == 'o':
+            return 'out(%d);' % self.nxt()
+        if k == 'b':
+            return 'break;'
+        if k == 'c':
+            return 'continue;'
+        if k == 'r':
+            return 'return;'
+        if k == 'g':
+            return 'goto end;'
+        if k in ('if0', 'if1', 'ifa', 'ife0', 'ife1', 'ifea'):
+            c = k[-1]
+            if c == 'a':
+                self.uses_a = True
+            s = 'if (%s) %s' % (c, self.r(t[1]))
+            if len(t) == 3:
+                s += ' else %s' % self.r(t[2])
+            return s
+        if k == 'wh':
+            n = self.nxt()
+            return '{ int n%d = 2; while (n%d--) %s }' % (n, n, self.r(t[1]))
+        if k == 'do':
+            n = self.nxt()
+            return '{ int n%d = 2; do %s while (--n%d); }' % (n, self.r(t[1]), n)
+        if k == 'for':
+            n = self.nxt()
+            return 'for (int i%d = 0; i%d < 2; i%d++) %s' % (n, n, n, self.r(t[1]))
+        if k == 'blk':
+            n = self.nxt()
+            return '{ int t%d = %d; %s out(t%d); }' % (n, n, self.r(t[1]), n)
+        if k == 'seq':
+            return '{ %s %s }' % (self.r(t[1]), self.r(t[2]))
+        self.uses_v = True
+        lab = {'sw1': ('case 1:',), 'swd': ('default:',), 'sw12': ('case 1:', 'case 2:'), 'sw1d': ('case 1:', 'default:'), 'swd1': ('default:', 'case 1:')}[k]
+        return 'switch (v) { %s }' % ' '.join('%s %s' % (l, self.r(s)) for l, s in zip(lab, t[1:]))
+
+
+def s4_case(tree):
+    rd = _Render()
+    body = rd.r(tree)
+    fn = 'void f@(int a, int v) { %s end: out(%d); }\n' % (body, rd.nxt())
+    avals = (0, 1) if rd.uses_a else (0,)
+    vvals = (0, 1, 2, 3) if rd.uses_v else (0,)
+    tup = [(a, v) for a in avals for v in vvals]
+    drive = ' '.join('f@(%d, %d); out(1000);' % t for t in tup)
+    return Case('S4', 'S4/' + shape(tree), fn.replace('@', ''), fn, drive, ['a=%d v=%d' % t for t in tup], lines_per=None)
+
+
+def shape(tree):
+    """stable, coarse description of a tree for keys: the multiset-free preorder of node kinds"""
+    return tree[0] if len(tree) == 1 else '%s(%s)' % (tree[0], ','.join(shape(s) for s in tree[1:]))
+
+
+# ---------------------------------------------------------------------------
+# S5: aggregates: every (size, alignment) with alignment | size, size 1..64
+
+S5BASE = {1: 'char', 2: 'short', 4: 'int', 8: 'long'}
+S5OPS = ('assign', 'init', 'pass', 'ret', 'cmp', 'cond', 'chain', 'member', 'arrelem')
+S5VARIANTS = ('arr', 'mix', 'uni')
+S5_EXTRA = r'''static void dump(const void *p, int n) { const unsigned char *c = p; for (int i = 0; i < n; i += 8) { unsigned long long w = 0; for (int j = 0; j < 8 && i + j < n; j++) w = w << 8 | c[i + j]; out(w); } }
+static void fill(void *p, int n, int seed) { unsigned char *c = p; for (int i = 0; i < n; i++) c[i] = (unsigned char)(i * 7 + seed); }
+'''
+
+
+def s5_specs():
+    for al in (1, 2, 4, 8):
+        for size in range(al, 65, al):
+            for var in S5VARIANTS:
+                if var == 'mix' and size == al:
+                    continue
+                for op in S5OPS:
+                    if var != 'arr' and op in ('cmp', 'cond', 'chain', 'init', 'arrelem'):
+                        continue
+                    yield ('S5', size, al, var, op)
+
+
+def s5_case(spec):
+    _, size, al, var, op = spec
+    B, n = S5BASE[al], size // al
+    if var == 'arr':
+        ty = 'struct s@ { %s m[%d]; }' % (B, n)
+    elif var == 'mix':
+        ty = 'struct s@ { %s h; struct { char x[%d]; } t; }' % (B, size - al)
+    else:
+        ty = 'union s@ { %s m[%d]; char c[%d]; }' % (B, n, size)
+    S = ty.split(' {')[0]
+    guard = 'struct w@ { unsigned char g0[8]; %s d; unsigned char g1[8]; };\n' % S
+    pre = 'struct w@ w; %s src, src2; fill(&w, sizeof w, 0xa0); fill(&src, sizeof src, 3); fill(&src2, sizeof src2, 101);' % S
+    post = 'dump(&w, sizeof w);'
+    if op == 'assign':
+        fn = 'void f@(%s *d, %s *s) { *d = *s; }' % (S, S)
+        call = 'f@(&w.d, &src);'
+    elif op == 'init':
+        fn = 'void f@(%s *d, %s *s) { %s x = *s; %s y = x; *d = y; }' % (S, S, S, S)
+        call = 'f@(&w.d, &src);'
+    elif op == 'pass':
+        fn = 'void f@(%s x, %s *d, int k, %s y) { if (k) *d = y; else *d = x; }' % (S, S, S)
+        call = 'f@(src, &w.d, 0, src2); dump(&w, sizeof w); f@(src, &w.d, 1, src2);'
+    elif op == 'ret':
+        fn = '%s f@(%s *s) { return *s; }' % (S, S)
+        call = 'w.d = f@(&src);'
+    elif op == 'cmp':
+        fn = 'int f@(%s a, %s b) { for (int i = 0; i < %d; i++) if (a.m[i] != b.m[i]) return i + 1; return 0; }' % (S, S, n)
+        call = ('out(f@(src, src)); out(f@(src, src2)); w.d = src; w.d.m[%d] ^= 1; out(f@(src, w.d)); out(f@(w.d, src));' % (n - 1))
+    elif op == 'cond':
+        fn = '%s f@(int c, %s *a, %s *b) { return c ? *a : *b; }' % (S, S, S)
+        call = 'w.d = f@(1, &src, &src2); dump(&w, sizeof w); w.d = f@(0, &src, &src2);'
+    elif op == 'chain':
+        fn = 'void f@(%s *d, %s *e, %s *s) { *d = *e = *s; }' % (S, S, S)
+        call = 'f@(&w.d, &src2, &src); dump(&src2, sizeof src2);'
+    elif op == 'member':
+        # aggregate as a member of a larger struct and copied through member access
+        fn = 'struct o@ { char c; %s in; };\nvoid f@(struct o@ *o, %s *s, %s *d) { o->in = *s; *d = o->in; }' % (S, S, S)
+        call = 'struct o@ o; f@(&o, &src, &w.d);'
+    else:
+        fn = 'void f@(%s *a, int i, int j) { a[i] = a[j]; }' % S
+        call = ('%s a[3]; fill(a, sizeof a, 9); f@(a, 0, 2); f@(a, 1, 0); dump(a, sizeof a);' % S)
+    fn = ty + ';\n' + guard + fn + '\n'
+    drive = '%s %s %s' % (pre, call, post)
+    return Case('S5', 'S5/%s/%s/size%d-align%d' % (op, var, size, al), fn.replace('@', ''), fn, drive, ['size=%d align=%d' % (size, al)], lines_per=None)
